@@ -11,6 +11,15 @@ from checks import common, e1, e2
 MAX_SUITES = 1
 
 
+def _thorough():
+    import os
+    return os.environ.get('VERIF_ACTIVE_TIER') == 'thorough'
+
+
+def max_suites():
+    return MAX_SUITES          # two symbolic suites leave the K3 equality of the suite vector undecided (z3 unknown): not used
+
+
 def sym_hello(P):
     from cryptoparser.tls.subprotocol import TlsHandshakeClientHello
     from cryptoparser.tls.ciphersuite import TlsCipherSuiteFactory
@@ -19,7 +28,7 @@ def sym_hello(P):
     sp = coded_spec(TlsCipherSuiteFactory.get_enum_class(), TlsInvalidTypeTwoByte, 2)
     suites = []
     codes = []
-    for i in range(MAX_SUITES):
+    for i in range(max_suites()):
         if not P.choose('hello has cipher suite %d' % i):
             break
         c = z3.Int('suite_%d' % i)
@@ -76,7 +85,7 @@ def run():
     import os
     import pickle
     d = os.path.join(common.HERE, '.cache', 'hello', e1.source_digest())
-    p = os.path.join(d, 'clienthello.pkl')
+    p = os.path.join(d, 'clienthello-%d.pkl' % max_suites())
     if os.path.exists(p):
         try:
             return pickle.load(open(p, 'rb'))
@@ -96,7 +105,7 @@ def run():
 def _run():
     e2.setup()
     r = vc.run_unit('hello', thunk, max_paths=4000)
-    r.extra['bounded'] = sorted(set(r.extra.get('bounded', [])) | {'ClientHello with at most %d cipher suites (each code symbolic over 2^16), default version/random/session id/compression, extensions: none or an empty renegotiation_info' % MAX_SUITES})
+    r.extra['bounded'] = sorted(set(r.extra.get('bounded', [])) | {'ClientHello with at most %d cipher suites (each code symbolic over 2^16), default version/random/session id/compression, extensions: none or an empty renegotiation_info' % max_suites()})
     return r
 
 
